@@ -29,6 +29,7 @@ RULE = ('Entry "permute": generated C01/C02 cases; the same sources are fitted w
 RULE += (' ' + 'Also varied: mixed named / wavelength filter lists with cube and convolved files in different units, the same filter listed twice.')
 RULE += (' ' + 'History machine: unnamed sources, memory-mapped cube cases, and an other_fitter rule (a second fitter with reversed filters / other ranges is created, used and kept alive).')
 RULE += (' ' + 'The brightness-scaling sources also carry flag-4 points (log10 flux shifted by log10 of the constant, often across 0). (Limits are left out here: a grid model may equal the data exactly, and a limit sitting exactly on the model flips with rounding.)')
+RULE += (' ' + 'A third of the distance-dependent histories run on fitters made with remove_resolved=True.')
 ASSUMPTIONS = [
     'paired runs that change the summation order are compared at 1e-9 relative (+1e-13*cond on the 2-D parameters)',
     'history independence and source immutability are compared bit-exactly (same operations, same bits)',
@@ -232,6 +233,24 @@ def history_cases(draw):
         s['flux'] = [v * 1.5 if isinstance(v, float) else v for v in s['flux']]
         c['sources'].append(s)
     c['mode'] = mode
+    if mode == '3d' and len(c['grid']['apertures']) >= 2 and draw(st.integers(0, 2)) == 0:
+        # the fitter is asked to drop resolved models: which (model, distance) pairs are dropped for a source depends on the
+        # bands that source uses - and on nothing the fitter did before
+        c['remove_resolved'] = True
+        # the first filter keeps its small aperture, the others get much larger ones: models are then resolved in the first
+        # band only; the first source does not use that band, the second one does
+        nf_ = len(c['filters'])
+        if nf_ >= 2:
+            theta = [t if j == 0 else t * 25. for j, t in enumerate(c['theta'])]
+            c['theta'] = theta
+            c['setup'] = dict(c['setup'], theta=theta)
+            a, b = c['sources'][0], c['sources'][1]
+            if sum(1 for f in a['flags'][1:] if f in (1, 4)) >= 1:
+                a['flags'][0] = 0
+            if b['flags'][0] not in (1, 4):
+                b['flags'][0] = 1
+                b['flux'][0] = abs(b['flux'][0]) + 1.
+                b['err'][0] = 0.1 * b['flux'][0]
     if c['format'] != 'v1' and draw(st.booleans()):
         c['memmap'] = True      # the default of Fitter / fit() for cube packages
     # some sources carry integer-typed photometry
